@@ -141,7 +141,7 @@ PROPS["C10"] = P([("cycles", "fast", 6000, 0.6), ("cycles", "trace", 1000, 0.4)]
     expect_probes=["mode_0", "mode_1", "mode_2", "mode_3", "mode_4", "entered_at_depth_1", "history_compared", "cycle_V", "cycle_W", "cycle_F", "cycle_V_ex", "cycle_W_ex",
                    "cycle_F_ex", "levels_3"])
 
-PROPS["C02"] = P([("ladder", "fast", 48, 1.0)],
+PROPS["C02"] = P([("ladder", "fast", 96, 1.0)],
     "refinement ladders divideBy2 = 0..3 (quick, 17x32 -> 129x256) / 0..4 (thorough, -> 257x512) for every smooth manufactured "
     "problem x geometry x coefficient profile, both boundary treatments (across-origin with R0 <= 1e-5), both strategies, cache "
     "flags, on ONE reused object (the shipped convergence_order pattern) or fresh objects, each solve run under the simulator "
@@ -150,9 +150,9 @@ PROPS["C02"] = P([("ladder", "fast", 48, 1.0)],
     "The truth of C02 does not depend on a schedule or fault: the simulator contributes thread count, shortfall, reduction order "
     "and the reused-object history; the oracle is numerical (two-rung order estimates with 0.15 estimation allowance, "
     "extrapolated vs plain on the finest common rung, library error figures vs harness evaluation).",
-    quick_runs=48, quick_budget_s=150, thorough_budget_s=1800,
+    quick_runs=96, quick_budget_s=200, thorough_budget_s=1800,
     expect_probes=["order_judged", "extrapolated_ladder", "plain_ladder", "reused_object", "extrapolated_vs_plain_compared",
-                   "anisotropic_base_grid", "uniform_base_grid"])
+                   "anisotropic_base_grid", "uniform_base_grid", "annular_domain"])
 
 PROPS["C14"] = P([("trisolve", "fast", 5000, 0.4), ("trisolve", "trace", 2000, 0.3), ("trisolve", "asan", 2000, 0.3)],
     "histories {construct(n, cyclic?), set entries, solve(b), solve(b) again, solve(b') ...} for n = 2,3,4..4096 over SPD "
